@@ -224,6 +224,10 @@ def apply_op(p, op):
         import io, contextlib
         with contextlib.redirect_stdout(io.StringIO()):
             p.setPSDtoRecordedTime(float(op["t"]))
+    elif k == "normalize": p.NormalizeToMoment(op["k"])
+    elif k == "selfupdate":
+        p._verif_clock = getattr(p, "_verif_clock", 0) + 1
+        p.UpdatePBMEuler(float(p._verif_clock), p.PSD)            # the model's own array handed back: populations below one are removed in place
     elif k == "backup": p.createBackup()
     elif k == "revert": p.revert()
     elif k == "load": p.LoadDistribution(np.array([float(v) for v in op["data"]]))
@@ -331,6 +335,15 @@ def gen_histories(rng, tier):
                 hist.append((cfg, [dict(op="recon"), dict(op="update", p=p1), mo, dict(ch), mo, dict(op="update", p=p1), mo, dict(op="settime", t=Fr(1)), mo]))
                 hist.append((cfg, [dict(op="update", p=p1), mo, dict(op="backup"), dict(ch), mo, dict(op="revert"), mo]))
                 hist.append((cfg, [dict(op="recon"), dict(op="update", p=p1), dict(ch), dict(op="update", p=p1), mo, dict(op="settime", t=Fr(3, 2)), mo, dict(op="reset", rb=True), mo]))
+    # operations that modify the distribution IN PLACE (normalisation, an update with the model's own array) right after a backup or a
+    # recorded load: the backup / the record must still hold the distribution they were made from
+    for cfg in CONFIGS[:3]:
+        for p1 in (4, 1):
+            for k in (0, 1, 3):
+                hist.append((cfg, [dict(op="update", p=p1), dict(op="backup"), dict(op="normalize", k=k), dict(op="revert"), mo]))
+                hist.append((cfg, [dict(op="update", p=p1), dict(op="backup"), dict(op="normalize", k=k), dict(op="add", k=1), dict(op="revert"), dict(op="normalize", k=k)]))
+            hist.append((cfg, [dict(op="update", p=p1), dict(op="backup"), dict(op="selfupdate"), dict(op="revert"), mo]))
+            hist.append((cfg, [dict(op="update", p=p1), dict(op="backup"), dict(op="normalize", k=3), dict(op="selfupdate"), dict(op="revert")]))
     # recording life cycle: every order of three recording operations followed by a query, on every configuration
     # (regression: enable, remove, query raised TypeError before fix 038111f)
     import itertools
